@@ -138,9 +138,155 @@ def rand_width(rng, w):
     return rng.randrange(0, top + 1)
 
 
+# ---------------------------------------------------------------------------------------------
+# typed table contents (gABI encodings; well-formed builders + structure-aware corruptions)
+
+SHT_DYNSYM = 11
+DT_NULL, DT_NEEDED, DT_PLTRELSZ, DT_HASH, DT_STRTAB, DT_SYMTAB, DT_STRSZ, DT_SONAME, DT_RPATH, DT_RUNPATH = 0, 1, 2, 4, 5, 6, 10, 14, 15, 29
+DYNSIZE = {32: 8, 64: 16}
+SYMSIZE = {32: 16, 64: 24}
+
+
+def up4(n):
+    return (n + 3) // 4 * 4
+
+
+def note_record(enc, name, desc, ntype, namesz=None, descsz=None):
+    """one note: namesz, descsz, type, name (NUL included in `name`) padded to 4, descriptor padded to 4;
+    `namesz` / `descsz` override the stored length fields (field-level corruption)"""
+    return (put(len(name) if namesz is None else namesz, 4, enc) + put(len(desc) if descsz is None else descsz, 4, enc) +
+            put(ntype, 4, enc) + name + bytes(up4(len(name)) - len(name)) + desc + bytes(up4(len(desc)) - len(desc)))
+
+
+def notes_blob(rng, enc, corrupt=True):
+    """a note section/segment body: 0..4 notes whose name and descriptor lengths cover all residues mod 4;
+    corruptions: a length field set to a boundary value (0,1,3,4,5,7,size-12,size-11,size,2^31,2^32-1, +-1),
+    the last note cut at a structural boundary (+-1), trailing garbage"""
+    k = rng.choice([0, 1, 1, 2, 3, 4])
+    recs = []
+    for _ in range(k):
+        nl = rng.choice([1, 2, 3, 4, 5, 6, 7, 8, 9])            # namesz (with NUL)
+        dl = rng.choice([0, 1, 2, 3, 4, 5, 6, 7, 8, 9, 16, 20])
+        name = rng.choice([b"CORE", b"GNU", b"LINUX", b"FreeBSD", b"stapsdt", b"a", b"ab", b"abcdefgh"])[:nl - 1].ljust(nl - 1, b"x") + b"\0"
+        desc = bytes(rng.randrange(256) for _ in range(dl))
+        recs.append((name, desc, rng.choice([1, 2, 3, 4, 0x53494749, rand_width(rng, 4)])))
+    blobs = [note_record(enc, n, d, t) for n, d, t in recs]
+    total = sum(len(b) for b in blobs)
+    if corrupt and recs and rng.random() < 0.5:
+        j = rng.randrange(len(recs)); n, d, t = recs[j]
+        start = sum(len(b) for b in blobs[:j]); rest = total - start
+        v = rng.choice([0, 1, 3, 4, 5, 7, 8, rest - 12, rest - 11, rest - 13, rest, rest + 1, total, total - 1, len(n) + 1, len(n) - 1,
+                        len(d) + 1, len(d) + 4, up4(len(n)) + up4(len(d)), 1 << 31, (1 << 32) - 1, (1 << 32) - 4, rng.randrange(1 << 32)])
+        if rng.random() < 0.5:
+            blobs[j] = note_record(enc, n, d, t, namesz=v)
+        else:
+            blobs[j] = note_record(enc, n, d, t, descsz=v)
+    body = b"".join(blobs)
+    if corrupt and recs and rng.random() < 0.45:
+        # cut inside the last note: at a structural boundary (header, name, padded name, descriptor, jointly
+        # padded name+descriptor, padded descriptor) +- 1, or anywhere
+        n, d, _ = recs[-1]
+        start = len(body) - len(blobs[-1])
+        marks = [0, 4, 8, 12, 12 + len(n), 12 + up4(len(n)), 12 + up4(len(n)) + len(d), 12 + up4(len(n) + len(d)),
+                 12 + len(n) + len(d), 12 + up4(len(n)) + up4(len(d))]
+        cut = rng.choice(marks) + rng.choice([0, 0, 0, -1, 1, 2, 3])
+        if rng.random() < 0.25:
+            cut = rng.randrange(len(blobs[-1]) + 1)
+        body = body[:max(start, min(len(body), start + cut))]
+    if corrupt and rng.random() < 0.25:
+        body += bytes(rng.choice([0, 0xff, rng.randrange(256)]) for _ in range(rng.choice([1, 2, 3, 4, 11, 12, 13, 15])))
+    return body
+
+
+def note_scope(enc, namesz, descsz, size):
+    """exhaustive small scope: ONE note with the given length fields in a body of exactly `size` bytes"""
+    full = note_record(enc, b"N" * max(namesz - 1, 0) + (b"\0" if namesz else b""), bytes(range(1, descsz + 1)), 1, namesz, descsz)
+    return (full + bytes(range(0x80, 0x80 + 24)))[:size]
+
+
+def dyn_blob(rng, cls, enc, strlen, corrupt=True):
+    """dynamic section body: entries with string-valued tags (d_val offsets into the string table, some out of
+    range), with or without the terminating DT_NULL, possibly a cut last entry"""
+    w = 4 if cls == 32 else 8
+    ents = []
+    for _ in range(rng.choice([0, 1, 2, 3, 5, 8])):
+        tag = rng.choice([DT_NEEDED, DT_NEEDED, DT_SONAME, DT_RPATH, DT_RUNPATH, DT_STRTAB, DT_SYMTAB, DT_HASH, DT_STRSZ, DT_PLTRELSZ,
+                          24, 30, 0x6ffffef5, 0x7fffffff, (1 << (8 * w)) - 1, rand_width(rng, w)])
+        val = rng.choice([0, 1, max(strlen - 1, 0), strlen, strlen + 1, rng.randrange(0, max(strlen, 1)), 1 << 31, (1 << 32) - 1,
+                          (1 << 32) + 1, rand_width(rng, w)])
+        ents.append((tag, val))
+    if rng.random() < 0.6:
+        ents.insert(rng.randrange(len(ents) + 1) if rng.random() < 0.3 else len(ents), (DT_NULL, rng.choice([0, 0, 7])))
+    body = b"".join(put(t, w, enc) + put(v, w, enc) for t, v in ents)
+    if corrupt and body and rng.random() < 0.3:
+        body = body[:len(body) - rng.choice([1, w - 1, w, w + 1, 2 * w - 1])]
+    return body
+
+
+def strtab_blob(rng, corrupt=True):
+    """string table: leading NUL, some strings; corruptions: no leading NUL, last string unterminated, empty"""
+    if corrupt and rng.random() < 0.1:
+        return b""
+    t = b"\0" if not corrupt or rng.random() < 0.85 else b""
+    for _ in range(rng.randint(0, 5)):
+        t += rng.choice([b"libc.so.6", b"main", b"_start", b"x", b"", b"a_rather_long_symbol_name_0123456789", bytes(rng.randrange(1, 256) for _ in range(rng.randint(1, 6)))]) + b"\0"
+    if corrupt and rng.random() < 0.3:
+        t = t.rstrip(b"\0") + rng.choice([b"", b"tail", b"z"])
+    return t
+
+
+def symtab_blob(rng, cls, enc, strlen, corrupt=True):
+    """symbol table body: null symbol + records; st_name inside / at the end of / outside the string table"""
+    aw = 4 if cls == 32 else 8
+    recs = []
+    for i in range(rng.choice([0, 1, 2, 3, 6])):
+        name = 0 if i == 0 and rng.random() < 0.8 else rng.choice([0, 1, max(strlen - 1, 0), strlen, strlen + 1, rng.randrange(0, max(strlen, 1)),
+                                                                    1 << 31, (1 << 32) - 1, rand_width(rng, 4)])
+        value, size = rand_width(rng, aw), rand_width(rng, aw)
+        info, other, shndx = rng.randrange(256), rng.randrange(256), rng.choice([0, 1, 2, 0xfff1, 0xffff, rand_width(rng, 2)])
+        if cls == 32:
+            recs.append(put(name, 4, enc) + put(value, 4, enc) + put(size, 4, enc) + bytes([info, other]) + put(shndx, 2, enc))
+        else:
+            recs.append(put(name, 4, enc) + bytes([info, other]) + put(shndx, 2, enc) + put(value, 8, enc) + put(size, 8, enc))
+    body = b"".join(recs)
+    if corrupt and body and rng.random() < 0.3:
+        body = body[:len(body) - rng.choice([1, 2, 4, 7, 8, 15])]
+    return body
+
+
+def modinfo_blob(rng, corrupt=True):
+    """`.modinfo` body: NUL-terminated `field=value` records; corruptions: records without `=`, several `=`,
+    empty field/value, runs of NULs, no final NUL, empty section, only NULs"""
+    if corrupt and rng.random() < 0.1:
+        return b""
+    if corrupt and rng.random() < 0.08:
+        return bytes(rng.choice([1, 2, 5]))
+    out = b""
+    for _ in range(rng.randint(1, 6)):
+        f = rng.choice([b"license", b"author", b"description", b"depends", b"vermagic", b"alias", b"f", b""])
+        v = rng.choice([b"GPL", b"", b"x", b"a=b", b"5.10.0 SMP mod_unload", bytes(rng.randrange(1, 256) for _ in range(rng.randint(1, 8)))])
+        k = rng.random()
+        rec = f + b"=" + v if (not corrupt or k < 0.7) else (f + v if k < 0.85 else b"=" + v if k < 0.93 else f + b"==" + v)
+        out += rec + b"\0" * (1 if not corrupt or rng.random() < 0.8 else rng.choice([2, 3, 5]))
+    if corrupt and rng.random() < 0.3:
+        out = out.rstrip(b"\0")
+    if corrupt and rng.random() < 0.15:
+        out = b"\0" * rng.choice([1, 3]) + out
+    return out
+
+
+def typed_kind(rng):
+    return rng.choice(["note", "note", "note", "dynamic", "dynamic", "symtab", "dynsym", "strtab", "modinfo", "modinfo"])
+
+
 def random_model(rng, cls, enc, nsec=None, nseg=None, max_data=96, typed=None, pht_last=False):
     """A random well-formed image: tables and data inside the file, pairwise disjoint, arbitrary
-    order and gaps; segments may overlap each other and cover sections or not."""
+    order and gaps; segments may overlap each other and cover sections or not.
+    `typed` (None | probability): with that probability a section is a typed table -- SHT_NOTE,
+    SHT_DYNAMIC, SHT_SYMTAB/DYNSYM (+ a linked SHT_STRTAB), `.modinfo` -- whose *contents* are built by the
+    *_blob helpers above (well-formed encodings with field-level corruptions), with sh_entsize / sh_link set
+    as the gABI says or to boundary values; PT_NOTE segments then cover a note section (exactly, cut, or
+    extended).  With `typed=None` the function draws exactly the random numbers it always drew."""
     m = Model(cls, enc)
     aw = 4 if cls == 32 else 8
     nsec = rng.randint(1, 9) if nsec is None else nsec
@@ -157,6 +303,18 @@ def random_model(rng, cls, enc, nsec=None, nseg=None, max_data=96, typed=None, p
                                  b".dynamic", b"x", bytes(rng.randrange(1, 256) for _ in range(rng.randint(1, 9)))])
                      for _ in range(nsec - 1)]
     shstrndx = rng.randrange(1, nsec) if nsec > 1 else 0
+    kinds = [None] * nsec
+    if typed:
+        for i in range(1, nsec):
+            if i != shstrndx and rng.random() < typed:
+                kinds[i] = typed_kind(rng)
+                names[i] = {"note": b".note.x", "dynamic": b".dynamic", "symtab": b".symtab", "dynsym": b".dynsym",
+                            "strtab": b".strtab", "modinfo": rng.choice([b".modinfo"] * 6 + [b".modinf", b".modinfo2"])}[kinds[i]]
+        if "strtab" not in kinds and any(k in ("dynamic", "symtab", "dynsym") for k in kinds):
+            free = [i for i in range(1, nsec) if kinds[i] is None and i != shstrndx]
+            if free:
+                j = rng.choice(free); kinds[j] = "strtab"; names[j] = b".strtab"
+    tstr = {i: strtab_blob(rng) for i in range(nsec) if kinds[i] == "strtab"}
     strtab = b"\0"
     nameoff = []
     for n in names:
@@ -176,7 +334,25 @@ def random_model(rng, cls, enc, nsec=None, nseg=None, max_data=96, typed=None, p
         else:
             ty = rng.choice([SHT_PROGBITS] * 4 + [SHT_NOBITS, SHT_NOBITS, SHT_NULL, SHT_NOTE, SHT_STRTAB, SHT_SYMTAB,
                                                    SHT_REL, SHT_RELA, SHT_DYNAMIC, 14, 15, 0x6ffffff6, rand_width(rng, 4)])
-        if i == shstrndx:
+        tlink = None
+        if kinds[i] is not None:
+            strs = sorted(tstr)
+            tlink = rng.choice(strs) if strs else 0
+            slen = len(tstr[tlink]) if strs else 0
+            if kinds[i] == "note":
+                ty, data = SHT_NOTE, notes_blob(rng, enc)
+            elif kinds[i] == "dynamic":
+                ty, data = SHT_DYNAMIC, dyn_blob(rng, cls, enc, slen)
+            elif kinds[i] in ("symtab", "dynsym"):
+                ty, data = (SHT_SYMTAB if kinds[i] == "symtab" else SHT_DYNSYM), symtab_blob(rng, cls, enc, slen)
+            elif kinds[i] == "strtab":
+                ty, data = SHT_STRTAB, tstr[i]
+            else:
+                ty, data = SHT_PROGBITS, modinfo_blob(rng)
+            if rng.random() < 0.06:
+                ty = rng.choice([SHT_NOBITS, SHT_NULL, SHT_PROGBITS, SHT_NOTE, SHT_DYNAMIC, SHT_SYMTAB])   # wrong type for the contents
+                if ty in (SHT_NULL, SHT_NOBITS): data = None
+        elif i == shstrndx:
             data = strtab
         elif ty in (SHT_NULL, SHT_NOBITS):
             data = None
@@ -191,6 +367,10 @@ def random_model(rng, cls, enc, nsec=None, nseg=None, max_data=96, typed=None, p
                      "sh_addralign": rng.choice([0, 1, 4, 8, 16, 4096, rand_width(rng, aw)]),
                      "sh_entsize": rng.choice([0, 0, 1, 8, 16, 24, rand_width(rng, aw)]),
                      "name": names[i], "data": data})
+        if kinds[i] in ("dynamic", "symtab", "dynsym"):
+            rec = DYNSIZE[cls] if kinds[i] == "dynamic" else SYMSIZE[cls]
+            secs[-1]["sh_entsize"] = rng.choice([rec] * 6 + [0, 1, rec - 1, rec + 1, 2 * rec, 1 << 31, (1 << (8 * aw)) - 1, len(data or b""), len(data or b"") + 1])
+            secs[-1]["sh_link"] = rng.choice([tlink] * 6 + [0, i, nsec - 1, nsec, 0xffff, 0x10000 + tlink, (1 << 32) - 1, shstrndx])
     pieces = [("sht", -1, shentsize * nsec), ("pht", -1, phentsize * nseg)] + \
              [("sec", i, len(s["data"])) for i, s in enumerate(secs) if s["data"] is not None]
     rng.shuffle(pieces)
@@ -229,6 +409,14 @@ def random_model(rng, cls, enc, nsec=None, nseg=None, max_data=96, typed=None, p
         else:
             off = rng.randrange(0, total + 1); filesz = rng.randrange(0, total - off + 1)
             va = rng.choice([0, 0x400000, rng.randrange(0, 1 << 20)]); memsz = filesz + rng.choice([0, 0, 32, 4096])
+        notesecs = [s for k, s in zip(kinds, secs) if k == "note" and s["data"] is not None]
+        if typed and notesecs and rng.random() < 0.5:
+            # a PT_NOTE segment over a note section: exactly, cut short, extended, or shifted
+            s0 = rng.choice(notesecs); ty = PT_NOTE if rng.random() < 0.9 else ty
+            off = s0["sh_offset"] + rng.choice([0, 0, 0, 0, 4, 12, 1])
+            filesz = max(0, s0["sh_size"] - (off - s0["sh_offset"]) + rng.choice([0, 0, 0, -1, -3, -4, 1, 4, 13]))
+            off = min(off, total); filesz = min(filesz, total - off)
+            va = s0["sh_addr"]; memsz = filesz
         lim = (1 << (8 * aw)) - memsz - 1
         va = min(va, max(lim, 0))
         segs.append({"p_type": ty, "p_flags": rand_width(rng, 4), "p_offset": off, "p_vaddr": va,
